@@ -489,6 +489,8 @@ class Ctx:
                 self.unproved(b.get('kind', 'obligation') + ':' + str(b.get('file') or b.get('targets') or b.get('theorem') or b.get('model') or ''), json.dumps(b)[:1500])
         lines = []
         seen = set()
+        # concrete failing inputs first, smallest first (cheap minimisation by selection)
+        self.violations.sort(key=lambda v: (v['no_input'], len(json.dumps(v['replay'], default=str))))
         for i, v in enumerate(self.violations):
             if v['key'] in seen:
                 continue
